@@ -293,7 +293,10 @@ LEVEL = {"C18": "other"}
 
 
 def write_evidence(prop, tier, seed, hs, results, wall, violations, digest, known_ids):
-    os.makedirs(os.path.join(gentree.VERIF, "evidence"), exist_ok=True)
+    # runs against a scratch copy of the repository (seed evaluation) must not touch /verif/evidence
+    evdir = os.environ.get("VERIF_EVIDENCE_DIR") or (
+        os.path.join(gentree.WORK, "evidence") if os.environ.get("VERIF_REPO") else os.path.join(gentree.VERIF, "evidence"))
+    os.makedirs(evdir, exist_ok=True)
     holds = [r for r in results if r["verdict"] == "HOLDS"]
     nontrivial = [r for r in results
                   if r["verdict"] in ("HOLDS", "COUNTEREXAMPLE") and r.get("covers")
@@ -362,5 +365,5 @@ def write_evidence(prop, tier, seed, hs, results, wall, violations, digest, know
         "wall_s": round(wall, 1),
         "violations": violations,
     }
-    with open(os.path.join(gentree.VERIF, "evidence", prop + ".json"), "w") as f:
+    with open(os.path.join(evdir, prop + ".json"), "w") as f:
         json.dump(ev, f, indent=1)
